@@ -40,7 +40,7 @@ class World:
         self.alive = True
         self.marks = [2000]         # interesting instants
 
-    def update(self, same=False):
+    def update(self, same=False, identical=False):
         rng = self.rng
         if same and self.last:
             name, stype = self.last[0], self.last[1]
@@ -48,6 +48,8 @@ class World:
             name, stype = rng.choice(NAMES), rng.choice(TYPES)
         port = rng.choice([80, 631, 9100])
         attrs = rng.choice(["_", "6b=76", "6b=-", "61=62+63=."])
+        if identical and self.last:
+            name, stype, port, attrs = self.last        # the very same description again (a refresh by the application)
         self.last = (name, stype, port, attrs)
         self.sk = 1
         self.lines.append("UPDATE 1 " + svc(name, stype, port, attrs))
@@ -202,10 +204,11 @@ def scenario(rng, w):
         w.conflict_service_exact()
         w.settle()
         w.query()
-        w.update(same=True)
+        w.update(same=True, identical=rng.random() < 0.5)
         if rng.random() < 0.8:
             w.conflict_service_exact()
         w.settle()
+        w.query()
     elif kind == "late-conflicts":
         # each candidate's owner answers late in that candidate's own 2 s window: every probe needs a full wait of its own
         for _ in range(rng.choice([1, 2, 2, 3])):
@@ -221,8 +224,9 @@ def scenario(rng, w):
         w.hk = 1
         w.conflict_host_exact()
         if rng.random() < 0.3:
-            w.update(same=True)
+            w.update(same=True, identical=rng.random() < 0.5)
         w.settle()
+        w.query()
     elif kind == "aba":
         w.settle()
         w.update()
@@ -260,13 +264,13 @@ def gen_script(rng, nops, focus):
             if r < 0.85:
                 w.query()
             elif r < 0.9:
-                w.update(same=rng.random() < 0.7)
+                w.update(same=rng.random() < 0.7, identical=rng.random() < 0.25)
                 w.settle()
             else:
                 w.adv()
         else:
             if r < 0.28:
-                w.update(same=rng.random() < 0.4)
+                w.update(same=rng.random() < 0.4, identical=rng.random() < 0.15)
             elif r < 0.40:
                 if rng.random() < 0.25:
                     w.conflict_service_multi()
